@@ -120,7 +120,7 @@ class NumResults:
 
 def engine_hash():
     h = hashlib.sha256()
-    for f in ("num.py", "models.py", "contracts.py", "lin.py", "numrun.py", "facts.py", "flow.py", "cfg.py", "inline.py", "baseline_fns.txt"):
+    for f in ("num.py", "models.py", "contracts.py", "lin.py", "numrun.py", "facts.py", "flow.py", "cfg.py", "inline.py", "loops.py", "baseline_fns.txt"):
         with open(os.path.join(HERE, f), "rb") as fh:
             h.update(fh.read())
     return h.hexdigest()[:12]
